@@ -18,6 +18,7 @@ import numpy as np
 from . import toy_ptycho as tp
 
 MODELS = ("object", "probe", "dataset")
+_OBJ_SHAPE = {}
 
 
 # ------------------------------------------------------------------------------------------
@@ -61,6 +62,12 @@ def constraints(cfg):
     c = {"probe": {"orthogonalize_probe": bool(cfg.get("ortho", False))}}
     if cfg.get("obj_constraints"):
         c["object"] = dict(cfg["obj_constraints"])
+    if cfg.get("rich_constraints"):
+        # non-default entries for every model that has a constraint dictionary (all of them are read by
+        # the iteration: soft losses for tv / descan tv, hard constraints for the others)
+        c["probe"] = {"orthogonalize_probe": True, "center_probe": True}
+        c["object"] = {"tv_weight_xy": 0.01, "gaussian_sigma": 0.5}
+        c["dataset"] = {"descan_tv_weight": 0.01, "center_scan_positions": True}
     return c
 
 
@@ -87,28 +94,57 @@ def build(cfg):
         pd = PtychographyDatasetRaster.from_dataset4dstem(d, verbose=0)
         pd.preprocess(com_fit_function="no_shift", plot_rotation=False, plot_com=False, probe_energy=energy,
                       force_com_rotation=0, force_com_transpose=False)
-        om = ObjectPixelated.from_uniform(num_slices=num_slices, slice_thicknesses=None if num_slices == 1 else 2.0,
-                                          obj_type=cfg["obj_type"], rng=cfg["rng_seed"] + 1)
+        shape_key = (scan, num_slices)
+        if cfg["obj_type"] == "potential" and shape_key in _OBJ_SHAPE:
+            # a uniform (zero) potential receives an exactly zero gradient in this toy problem and would
+            # never move: start from a seeded, strictly positive potential instead (round 3)
+            g = np.random.default_rng(cfg["rng_seed"] + 3)
+            init = (0.05 + 0.1 * g.random(_OBJ_SHAPE[shape_key])).astype(np.float32)
+            om = ObjectPixelated.from_array(init, slice_thicknesses=None if num_slices == 1 else 2.0,
+                                            obj_type="potential", rng=cfg["rng_seed"] + 1)
+        else:
+            om = ObjectPixelated.from_uniform(num_slices=num_slices,
+                                              slice_thicknesses=None if num_slices == 1 else 2.0,
+                                              obj_type=cfg["obj_type"], rng=cfg["rng_seed"] + 1)
         pm = ProbePixelated.from_params(
             num_probes=cfg["num_probes"],
             probe_params={"energy": energy, "defocus": defocus, "semiangle_cutoff": semiangle},
             learn_probe_tilt=bool(cfg.get("learn_probe_tilt", False)), rng=cfg["rng_seed"] + 2)
         pt = Ptychography.from_models(dset=pd, obj_model=om, probe_model=pm, detector_model=DetectorPixelated(),
                                       rng=cfg["rng_seed"], verbose=0)
-        pt.preprocess(obj_padding_px=(0, 0))
+        if cfg.get("val_grid"):
+            # deterministic (grid) validation split: every 4th position is held out of the updates
+            pt.preprocess(obj_padding_px=(0, 0), val_ratio=0.25, val_mode="grid")
+        else:
+            pt.preprocess(obj_padding_px=(0, 0))
+    if cfg["obj_type"] == "potential" and shape_key not in _OBJ_SHAPE:
+        _OBJ_SHAPE[shape_key] = tuple(pt.obj_model._obj.shape)      # learn the object shape once ...
+        return build(cfg)                                           # ... and build again from an array
     return pt
+
+
+def call_kwargs(cfg):
+    """keyword arguments every reconstruct() call of a run carries (the same in the interrupted and
+    in the uninterrupted run)"""
+    kw = {}
+    if cfg.get("snapshots"):
+        kw["store_snapshots_every"] = 1
+    return kw
 
 
 def first_call(pt, cfg, k):
     """the first reconstruct() call of every run: sets optimisers, schedulers, constraints"""
     pt.reconstruct(num_iters=k, optimizer_params=opt_params(cfg), scheduler_params=sched_params(cfg),
-                   constraints=constraints(cfg))
+                   constraints=constraints(cfg), **call_kwargs(cfg))
     return pt
 
 
-def cont(pt, m):
+def cont(pt, m, cfg=None, reset=False):
     """continuing `with the same calls`: no new optimiser / scheduler / constraint arguments"""
-    pt.reconstruct(num_iters=m)
+    kw = call_kwargs(cfg) if cfg else {}
+    if reset:
+        kw["reset"] = True
+    pt.reconstruct(num_iters=m, **kw)
     return pt
 
 
@@ -130,6 +166,21 @@ def save_reload(pt, path, store, device=None):
     with warnings.catch_warnings():
         warnings.simplefilter("ignore")
         q = Ptychography.from_file(path, auto_reload_dataset=False, device=device)
+    _rm(path)
+    return q
+
+
+def save_meta_reload(pt, path, store, cfg, device=None):
+    """save() WITHOUT the raw data (the default): the dataset model is skipped and the learned scan
+    positions / descan shifts travel in `_dataset_metadata`; from_file(path, dset=<the same data,
+    freshly preprocessed>) attaches the dataset and puts the learned values back"""
+    from quantem.diffractive_imaging.ptychography import Ptychography
+    _rm(path)
+    pt.save(path, mode="o", store=store, save_raw_data=False, verbose=0)
+    d = build(cfg).dset
+    with warnings.catch_warnings():
+        warnings.simplefilter("ignore")
+        q = Ptychography.from_file(path, dset=d, device=device)
     _rm(path)
     return q
 
@@ -159,7 +210,16 @@ def clone_fallback(pt):
         mod.copy = saved
 
 
-def interrupt(pt, via, workdir, tag="x"):
+def interrupt(pt, via, workdir, tag="x", cfg=None):
+    if via == "to":
+        pt.to("cpu")          # a device move between two reconstruct() calls: the SAME object goes on
+        return pt
+    if via == "meta":
+        return save_meta_reload(pt, os.path.join(workdir, "c05_%s_m.zip" % tag), "zip", cfg)
+    if via == "meta_dir":
+        return save_meta_reload(pt, os.path.join(workdir, "c05_%s_m_dir" % tag), "dir", cfg)
+    if via == "meta+to":
+        return save_meta_reload(pt, os.path.join(workdir, "c05_%s_m.zip" % tag), "zip", cfg, device="cpu")
     if via == "zip":
         return save_reload(pt, os.path.join(workdir, "c05_%s.zip" % tag), "zip")
     if via == "dir":
@@ -202,6 +262,12 @@ def numeric_obs(pt):
         "constraints": {k: {kk: _canon(vv) for kk, vv in sorted(v.items())} for k, v in sorted(cons.items())},
         "obj": np.array(pt.obj),
         "probe": np.array(pt.probe),
+        # reconstruction history kept next to the losses (anchor: _iter_losses, _iter_lrs, _snapshots)
+        "val_losses": [float(x) for x in pt._iter_val_losses],
+        "snapshots": [(int(sn["iteration"]), np.array(sn["obj"]), np.array(sn["probe"])) for sn in pt.snapshots],
+        # learned dataset parameters (anchor: _dataset_metadata)
+        "positions": pt.dset.scan_positions_px.detach().cpu().numpy().copy(),
+        "descan": pt.dset.descan_shifts.detach().cpu().numpy().copy(),
     }
 
 
@@ -359,4 +425,30 @@ def compare_numeric(x, y, tol, arr_l2=None, arr_max=None):
         if not (r <= arr_max and r2 <= arr_l2):
             return "%s differs by rel %.3g max-norm / %.3g Frobenius (tolerances %.1g / %.1g)" % (
                 nm, r, r2, arr_max, arr_l2)
+    return compare_extra(x, y, tol, arr_l2, arr_max)
+
+
+def compare_extra(x, y, tol, arr_l2, arr_max):
+    """the histories / learned parameters added in round 3 (absent in old records: skipped)"""
+    if "val_losses" in x and "val_losses" in y:
+        if len(x["val_losses"]) != len(y["val_losses"]):
+            return "validation loss history length %d vs %d" % (len(x["val_losses"]), len(y["val_losses"]))
+        if x["val_losses"] and rel(x["val_losses"], y["val_losses"]) > tol:
+            return "validation loss history %s vs %s" % (x["val_losses"], y["val_losses"])
+    if "snapshots" in x and "snapshots" in y:
+        if [a[0] for a in x["snapshots"]] != [a[0] for a in y["snapshots"]]:
+            return "snapshot iterations %s vs %s" % ([a[0] for a in x["snapshots"]], [a[0] for a in y["snapshots"]])
+        for (it, xo, xp), (_, yo, yp) in zip(x["snapshots"], y["snapshots"]):
+            for nm, a, b in (("obj", xo, yo), ("probe", xp, yp)):
+                r, r2 = rel(a, b), rel_l2(a, b)
+                if not (r <= arr_max and r2 <= arr_l2):
+                    return "snapshot of iteration %d: %s differs by rel %.3g max-norm / %.3g Frobenius" % (it, nm, r, r2)
+    for nm, label in (("positions", "dataset scan positions"), ("descan", "dataset descan shifts")):
+        if nm in x and nm in y:
+            if x[nm].shape != y[nm].shape:
+                return "%s shape %s vs %s" % (label, x[nm].shape, y[nm].shape)
+            # absolute (pixels): the learned displacements are ~1e-3 px on positions of a few px
+            d = float(np.abs(x[nm].astype(np.float64) - y[nm].astype(np.float64)).max()) if x[nm].size else 0.0
+            if not d <= max(arr_l2, tol) * max(1.0, float(np.abs(y[nm]).max()) if y[nm].size else 1.0):
+                return "%s differ by %.3g px" % (label, d)
     return None
